@@ -51,15 +51,16 @@ type deferred struct {
 }
 
 type Frame struct {
-	fn      *ssa.Function
-	info    *fnInfo
-	locals  []Val
-	defers  []deferred
-	cur     ssa.Instruction
-	visits  map[int]int
-	result  Val
-	hasRes  bool
-	panicIn *goPanicSig
+	fn        *ssa.Function
+	info      *fnInfo
+	locals    []Val
+	defers    []deferred
+	cur       ssa.Instruction
+	visits    map[int]int
+	symVisits map[int]int
+	result    Val
+	hasRes    bool
+	panicIn   *goPanicSig
 }
 
 func (ex *Exec) get(fr *Frame, v ssa.Value) Val {
@@ -130,19 +131,36 @@ func (ex *Exec) isRepoPkg(p *ssa.Package) bool {
 }
 
 // ensureInit runs the package initializer (repo packages only), tolerant of unmodelled calls.
+// The resulting global values are cached per worker and cloned into each later path.
 func (ex *Exec) ensureInit(p *ssa.Package) {
 	if ex.initDone[p] {
 		return
 	}
 	ex.initDone[p] = true
+	if snap, ok := ex.wk.initCache[p]; ok {
+		memo := map[interface{}]interface{}{}
+		for g, v := range snap {
+			ex.globals[g] = ex.newCell(ex.cloneVal(v, memo))
+		}
+		return
+	}
 	// allocate all globals of the package first
+	var gl []*ssa.Global
 	for _, m := range p.Members {
 		if g, ok := m.(*ssa.Global); ok {
+			gl = append(gl, g)
 			if _, ok := ex.globals[g]; !ok {
 				ex.globals[g] = ex.newCell(ex.zero(g.Type().(*types.Pointer).Elem()))
 			}
 		}
 	}
+	defer func() {
+		snap := map[*ssa.Global]Val{}
+		for _, g := range gl {
+			snap[g] = ex.globals[g].V
+		}
+		ex.wk.initCache[p] = snap
+	}()
 	if !ex.isRepoPkg(p) {
 		ex.initExternalGlobals(p)
 		return
@@ -153,6 +171,7 @@ func (ex *Exec) ensureInit(p *ssa.Package) {
 	}
 	saved := ex.initing
 	savedFrames := ex.frames
+	savedDepth := ex.depth
 	ex.initing = true
 	func() {
 		defer func() {
@@ -172,6 +191,84 @@ func (ex *Exec) ensureInit(p *ssa.Package) {
 	}()
 	ex.initing = saved
 	ex.frames = savedFrames
+	ex.depth = savedDepth
+}
+
+// cloneVal copies the mutable parts (cells, maps) of a value graph; immutable aggregates of
+// scalars are shared.
+func (ex *Exec) cloneVal(v Val, memo map[interface{}]interface{}) Val {
+	switch x := v.(type) {
+	case StructV:
+		f := make([]Val, len(x.F))
+		for i := range f {
+			f[i] = ex.cloneVal(x.F[i], memo)
+		}
+		return StructV{F: f}
+	case ArrayV:
+		if len(x.E) == 0 {
+			return x
+		}
+		if _, ok := x.E[0].(*Term); ok {
+			return x
+		}
+		e := make([]Val, len(x.E))
+		for i := range e {
+			e[i] = ex.cloneVal(x.E[i], memo)
+		}
+		return ArrayV{E: e}
+	case PtrV:
+		if x.C == nil {
+			return x
+		}
+		if c, ok := memo[x.C]; ok {
+			return PtrV{C: c.(*Cell), Path: x.Path}
+		}
+		nc := ex.newCell(nil)
+		memo[x.C] = nc
+		nc.V = ex.cloneVal(x.C.V, memo)
+		return PtrV{C: nc, Path: x.Path}
+	case SliceV:
+		if x.Nil || x.P.C == nil {
+			return x
+		}
+		np := ex.cloneVal(x.P, memo).(PtrV)
+		return SliceV{P: np, Off: x.Off, Len: x.Len, Cap: x.Cap}
+	case MapV:
+		if x.M == nil {
+			return x
+		}
+		if m, ok := memo[x.M]; ok {
+			return MapV{M: m.(*MapObj)}
+		}
+		nm := &MapObj{ID: x.M.ID}
+		memo[x.M] = nm
+		for i := range x.M.Keys {
+			nm.Keys = append(nm.Keys, ex.cloneVal(x.M.Keys[i], memo))
+			nm.Vals = append(nm.Vals, ex.cloneVal(x.M.Vals[i], memo))
+		}
+		return MapV{M: nm}
+	case IfaceV:
+		if x.T == nil {
+			return x
+		}
+		return IfaceV{T: x.T, V: ex.cloneVal(x.V, memo)}
+	case FuncV:
+		if len(x.Bind) == 0 {
+			return x
+		}
+		b := make([]Val, len(x.Bind))
+		for i := range b {
+			b[i] = ex.cloneVal(x.Bind[i], memo)
+		}
+		return FuncV{Fn: x.Fn, Bind: b, Native: x.Native, Name: x.Name}
+	case TupleV:
+		t := make(TupleV, len(x))
+		for i := range t {
+			t[i] = ex.cloneVal(x[i], memo)
+		}
+		return t
+	}
+	return v
 }
 
 func (ex *Exec) callFunction(fn *ssa.Function, args []Val) Val {
@@ -313,7 +410,8 @@ func (ex *Exec) execBlocks(fr *Frame, start *ssa.BasicBlock) {
 	}
 	for b != nil {
 		fr.visits[b.Index]++
-		if fr.visits[b.Index] > ex.unwind {
+		if fr.visits[b.Index] > 200000 && !ex.initing {
+			ex.noteInconcl(fmt.Sprintf("concrete loop cap exceeded in %s (block %d)", fr.fn.String(), b.Index))
 			panic(pathEndSig{"unwind"})
 		}
 		// phis first (simultaneous)
@@ -349,6 +447,17 @@ func (ex *Exec) execBlocks(fr *Frame, start *ssa.BasicBlock) {
 			switch x := in.(type) {
 			case *ssa.If:
 				c := ex.get(fr, x.Cond).(*Term)
+				if !c.IsConst() && !ex.initing {
+					// unwinding assertion: only symbolic loop/branch decisions count against the bound
+					if fr.symVisits == nil {
+						fr.symVisits = map[int]int{}
+					}
+					fr.symVisits[b.Index]++
+					if fr.symVisits[b.Index] > ex.unwind {
+						ex.noteInconcl(fmt.Sprintf("unwinding bound %d exceeded in %s at %s", ex.unwind, fr.fn.String(), ex.curPos()))
+						panic(pathEndSig{"unwind"})
+					}
+				}
 				if ex.Branch(c) {
 					next = b.Succs[0]
 				} else {
